@@ -79,8 +79,18 @@ func (d *Domain) has(v uint64) bool {
 	return int64(v) >= d.lo && int64(v) <= d.hi
 }
 
+type tkey struct {
+	op         Op
+	sort       Sort
+	n          uint8
+	val        uint64
+	name       string
+	a0, a1, a2 int
+}
+
 type TermTable struct {
 	tab  map[string]*Term
+	ftab map[tkey]*Term
 	next int
 	vars map[string]*Term
 	ufs  map[string]*UFDecl
@@ -98,7 +108,7 @@ type UFDecl struct {
 }
 
 func NewTermTable() *TermTable {
-	tt := &TermTable{tab: map[string]*Term{}, vars: map[string]*Term{}, ufs: map[string]*UFDecl{}}
+	tt := &TermTable{tab: map[string]*Term{}, ftab: map[tkey]*Term{}, vars: map[string]*Term{}, ufs: map[string]*UFDecl{}}
 	tt.tT = tt.mk(&Term{op: OpConst, sort: 0, val: 1})
 	tt.tF = tt.mk(&Term{op: OpConst, sort: 0, val: 0})
 	for i := 0; i < 256; i++ {
@@ -117,6 +127,26 @@ func (tt *TermTable) key(t *Term) string {
 }
 
 func (tt *TermTable) mk(t *Term) *Term {
+	if len(t.args) <= 3 {
+		k := tkey{op: t.op, sort: t.sort, n: uint8(len(t.args)), val: t.val, name: t.name}
+		switch len(t.args) {
+		case 3:
+			k.a2 = t.args[2].id
+			fallthrough
+		case 2:
+			k.a1 = t.args[1].id
+			fallthrough
+		case 1:
+			k.a0 = t.args[0].id
+		}
+		if e, ok := tt.ftab[k]; ok {
+			return e
+		}
+		tt.next++
+		t.id = tt.next
+		tt.ftab[k] = t
+		return t
+	}
 	k := tt.key(t)
 	if e, ok := tt.tab[k]; ok {
 		return e
@@ -169,7 +199,10 @@ func (tt *TermTable) Bool(b bool) *Term {
 func (tt *TermTable) Var(name string, s Sort, dom *Domain) *Term {
 	if v, ok := tt.vars[name]; ok {
 		if v.sort != s {
-			panic(fmt.Sprintf("variable %s redeclared with different sort", name))
+			panic(engineErr{kind: "HARNESS", msg: fmt.Sprintf("variable %s redeclared with different sort", name)})
+		}
+		if !sameDomain(v.dom, dom) {
+			panic(engineErr{kind: "HARNESS", msg: fmt.Sprintf("variable %s redeclared with a different domain (use distinct names)", name)})
 		}
 		return v
 	}
@@ -904,4 +937,11 @@ func (tt *TermTable) eval(t *Term, model map[string]uint64, cache map[int]uint64
 	}
 	cache[t.id] = r
 	return r
+}
+
+func sameDomain(a, b *Domain) bool {
+	if a == nil || b == nil {
+		return a == nil && b == nil
+	}
+	return *a == *b
 }
